@@ -161,6 +161,11 @@ func safeDo(o *Out, ex Exec, f []string) (obs string) {
 			msg = strings.ReplaceAll(msg, "\n", "_")
 			o.ObsHist["panic"]++
 			obs = "panic:" + msg
+			if pa, ok := ex.(interface {
+				OnPanic(o *Out, f []string, msg string)
+			}); ok {
+				pa.OnPanic(o, f, msg)
+			}
 		}
 	}()
 	return ex.Do(o, f)
